@@ -484,6 +484,11 @@ theorem never_stuck (ra rb : Bool) (ga gb : Option Nat) (ops : List Op) (hw : Wf
   | sync h =>
     exact sync_enabled hl h (by have := negWin_ge ga gb rb; omega) x hx
 
+/-- Non-vacuity of `never_stuck` / `never_dead`: a message waiting at `a` before the handshake (the
+pump of `a` then emits the request), and an established link. -/
+example : ((runLink (freshLink false false none none) [.send .a [1]]).get .a).e.sdu ≠ [] := by decide
+example : (runLink (freshLink false false none none) handshakeOps).a.e.s.established = true := by decide
+
 /-- The former deadlock (`corpus/C18/deadlock.txt`: window 6, both ends fill their send windows
 while the applications are slow) on the fixed model: once the applications have fetched and the
 acknowledgement timers have fired, everything that was submitted arrives and both send windows
@@ -554,6 +559,9 @@ theorem session_ring_ops (r : Ring) (buf : List Nat) (h : Ring.Rep maxMessageSiz
   refine ⟨⟨a, b.trans hn, by rw [c, hn, hq]; rfl⟩, ?_, by rw [f, hq], ⟨d, e.trans hn, by rw [g, hq]⟩⟩
   unfold Ring.free ringFree
   rw [hn, ← hq, Ring.contents_length]
+
+/-- Non-vacuity of `session_ring_ops`: the fresh ring represents the empty byte list. -/
+example : Ring.Rep maxMessageSize (Ring.new maxMessageSize) [] := Ring.rep_new _ (by decide)
 
 /-- Non-vacuity / a wrap-around sample: capacity 4, push 3, pop 2, push 3 (wraps), pop 4. -/
 example : Ring.run (Ring.new 4) [.push [1, 2, 3], .pop 2, .push [4, 5, 6], .pop 4] =
